@@ -62,6 +62,7 @@ class Contract:
         self.entry_held = []
         self.notes = []
         self.user_call = None
+        self.result_name = "result"
 
     # ---- builder API --------------------------------------------------
     def param(self, name, T, default=None):
@@ -160,6 +161,20 @@ class Contract:
         self.at_user_call_.append((label, expr, prop))
         return self
 
+    def result_as(self, name):
+        """Name of the return value in clauses (when a parameter is itself
+        called `result`)."""
+        self.result_name = name
+        return self
+
+    def at_call(self, callee_key, label, expr, prop=None):
+        """Obligation asserted at every call of `callee_key` (an external
+        or contracted function) reached from this function."""
+        if not hasattr(self, "at_call_"):
+            self.at_call_ = []
+        self.at_call_.append((callee_key, label, expr, prop))
+        return self
+
     def touch(self, *globs):
         """Module globals of union type read by the function: split at entry."""
         if not hasattr(self, "touch_"):
@@ -187,9 +202,23 @@ class LoopInv:
         self.decreases = None
         self.index = None
         self.exit_assume = []
+        self.locals_ = {}
+        self.iter_posts = []
 
     def inv(self, label, expr, prop=None):
         self.invs.append((label, expr, prop))
+        return self
+
+    def local(self, name, T):
+        """Declared type of a local that changes kind across iterations
+        (e.g. None before the first iteration, a number afterwards)."""
+        self.locals_[name] = T
+        return self
+
+    def iter_post(self, label, expr, prop=None):
+        """Checked at the end of every iteration; log queries see the
+        events of that iteration only."""
+        self.iter_posts.append((label, expr, prop))
         return self
 
     def variant(self, expr):
